@@ -830,8 +830,20 @@ func (s *TreeShapeListener) ExitTable(ctx *parser.TableContext) {
 			}
 		}
 		if len(pks) > 0 {
-			rel.PrimaryKey = &sysl.Type_Relation_Key{
-				AttrName: pks,
+			// a table may be re-opened: keep the key fields of earlier blocks
+			if rel.PrimaryKey == nil {
+				rel.PrimaryKey = &sysl.Type_Relation_Key{}
+			}
+			for _, pk := range pks {
+				known := false
+				for _, name := range rel.PrimaryKey.AttrName {
+					if name == pk {
+						known = true
+					}
+				}
+				if !known {
+					rel.PrimaryKey.AttrName = append(rel.PrimaryKey.AttrName, pk)
+				}
 			}
 		}
 	}
